@@ -72,6 +72,25 @@ def _s_pop(A): A.pop()
 def _s_clear(A): A.clear()
 def _s_update(A): A.update(["__new__"])
 
+def _n_extend0(A): A.extend([])
+def _n_iadd0(A):
+    A += []
+def _n_update0(A): A.update({})
+def _n_update_kw0(A): A.update()
+def _n_ior_self(A):
+    A |= A
+def _n_ior0(A):
+    A |= {}
+def _n_supdate0(A): A.update([])
+
+# operations that are mutations by kind but change nothing for these operands: on an unfrozen value they succeed,
+# on a frozen value they are still attempts to mutate and must fail
+_NOOP = {
+    "list": [("extend_empty", _n_extend0), ("iadd_empty", _n_iadd0)],
+    "dict": [("update_empty", _n_update0), ("update_noargs", _n_update_kw0), ("ior_self", _n_ior_self), ("ior_empty", _n_ior0)],
+    "set": [("update_empty", _n_supdate0)],
+}
+
 _MUT = {
     "list": [("append", _m_append), ("extend", _m_extend), ("insert", _m_insert), ("pop", _m_pop), ("remove", _m_remove), ("clear", _m_clear),
              ("setitem", _m_setitem), ("iadd", _m_iadd), ("setitem_aug", _m_setitem_aug)],
@@ -118,6 +137,11 @@ def attack(tag, roots):
             changed = repr(cp) != cp_before
             r = attempt(lambda: m(c))
             emit("att", tag, i, t, name, ctl[0], changed, r[0], repr(c) == before, r[1] if r[0] == "err" else "")
+        for name, m in _NOOP[t]:
+            cp = _copy(c)
+            ctl = attempt(lambda: m(cp))
+            r = attempt(lambda: m(c))
+            emit("noop", tag, i, t, name, ctl[0], r[0])
 '''
 
 
@@ -387,6 +411,13 @@ def run(tier):
                             flavor, c["id"], imp[1:], mname, kind), wit)
                     elif unchanged is not True:
                         rep.violation("c04:failed-mutation-changed:%s:%s" % (kind, mname), "[%s] %s: failed %s changed the frozen %s" % (flavor, c["id"], mname, kind), wit)
+                elif tag == "noop":
+                    _, _, imp, idx, kind, mname, ctl, res = e
+                    if ctl == "sok":
+                        st["noop_attempts"] = st.get("noop_attempts", 0) + 1
+                        if res != "serr":
+                            rep.violation("c04:noop-mutation-accepted:%s:%s" % (kind[1:], mname[1:]), "[%s] %s (%s): %s on a frozen %s reachable from a loaded value did not fail (it changes nothing, but it is a mutating operation)" % (
+                                flavor, c["id"], imp[1:], mname[1:], kind[1:]), wit)
                 elif tag == "nonmut":
                     st["nonmut"] += 1
                     if "..." in json.dumps(e[5]) or "..." in json.dumps(e[6]) or '"ref"' in json.dumps(e[5]):
@@ -440,6 +471,7 @@ def run(tier):
         "attempts_discarded_as_ill_formed": st["illformed"],
         "nonmutating_comparisons": st["nonmut"],
         "exported_function_calls": st["calls"],
+        "noop_mutation_attempts": st.get("noop_attempts", 0),
         "literal_path_mutation_attempts": st["const_path_attempts"],
         "literal_path_observations": st["const_path_observations"],
         "flavors": flavors,
